@@ -299,14 +299,24 @@ func c18Paths(def *ph.Def) []string {
 }
 
 // the three ways of reaching the help of a level
-func c18Texts(def *ph.Def, path string) (direct, viaOption, viaCommand string, haveOpt, haveCmd bool) {
+func c18Texts(def *ph.Def, path string) (direct, viaOption, viaCommand, viaRoot string, haveOpt, haveCmd, haveRoot bool) {
 	direct = ph.HelpOf(def, nil, path)
-	if def.Help == "" {
-		return
-	}
 	var words []string
 	if path != "" {
 		words = strings.Split(path, "/")
+	}
+	// Help() called on the root object after a Parse that selected the level (the caller prints help itself)
+	{
+		p := ph.Build(def, nil)
+		o := p.Run(words, false)
+		if o.Panic == "" && !o.HasErr {
+			viaRoot, _, _ = p.Help()
+			haveRoot = true
+		}
+		p.Close()
+	}
+	if def.Help == "" {
+		return
 	}
 	wrapperOnPath := false
 	cur := &def.Root
@@ -343,7 +353,7 @@ type c18Case struct {
 }
 
 func c18Judge(def *ph.Def, path string, verbose bool) ([]string, int) {
-	direct, viaOpt, viaCmd, haveOpt, haveCmd := c18Texts(def, path)
+	direct, viaOpt, viaCmd, viaRoot, haveOpt, haveCmd, haveRoot := c18Texts(def, path)
 	if verbose {
 		fmt.Printf("level %q help text:\n%s\n", "/"+path, direct)
 	}
@@ -353,6 +363,12 @@ func c18Judge(def *ph.Def, path string, verbose bool) ([]string, int) {
 		n++
 		if viaOpt != direct {
 			out = append(out, fmt.Sprintf("help: the text written for the help option at level %q differs from Help()", "/"+path))
+		}
+	}
+	if haveRoot {
+		n++
+		if viaRoot != direct {
+			out = append(out, fmt.Sprintf("help: Help() of the root object after a Parse that selected level %q differs from Help() of that level", "/"+path))
 		}
 	}
 	if haveCmd {
@@ -374,7 +390,7 @@ func init() {
 		ID:        "C18",
 		QuickSecs: 60, ThoroSecs: 300,
 		Rule: "complete finite product: 12 option kinds x alias count {0,1,2} x required x environment binding x description {none, one line, two lines} for the option of interest inside a three-option program (432 definitions), plus 24 command trees (every kind as inherited root option, commands with descriptions, sub-command, argument declarations, UnsetOptions wrapper, with and without help command) at every level, and the same definitions again with Help() rendered after every declaration step; " +
-			"each help text is parsed structurally (sections, entries) and checked clause by clause, and the texts reached through the help option, the help command and Help() are compared byte for byte; states = definitions x levels, transitions = help texts generated, distinct_nontrivial = distinct help texts",
+			"each help text is parsed structurally (sections, entries) and checked clause by clause, and the texts reached through the help option, the help command, Help() of the level's object and Help() of the root object after a Parse that selected the level are compared byte for byte; states = definitions x levels, transitions = help texts generated, distinct_nontrivial = distinct help texts",
 		Assume: []string{"the exact layout (padding, wrapping) is not part of the property and is not compared"},
 		Run: func(c *RunCtx) {
 			res := c.Res
